@@ -35,24 +35,35 @@ def is_sub(types, t, u):
     return t == u or u in ancestors(types, t)
 
 
-def gen_domain(rng):
+def gen_domain(rng, untyped=False):
+    """untyped: no (:types ...), every name of type object and written without `- type`; the library reads untyped
+    predicates, constants, parameters and objects, but functions only without parameters"""
     nt = rng.randint(1, 6)
-    tnames = ["agent"] + rng.sample(TYPE_POOL, nt)
+    tnames = [] if untyped else ["agent"] + rng.sample(TYPE_POOL, nt)
     types = []
     for i, t in enumerate(tnames):
         parent = "object" if i == 0 or rng.random() < 0.45 else rng.choice(tnames[:i])
         types.append((t, parent))
-    agent_types = [t for t, _ in types if is_sub(types, t, "agent")]
-    consts = [("c%d" % i, rng.choice(tnames)) for i in range(rng.choice([0, 0, 1, 2, 3]))]
+    agent_types = [t for t, _ in types if is_sub(types, t, "agent")] or ["object"]
+    # constants: of a declared type or of the root type (written `- object` or, at the end of the list, bare);
+    # half of the domains that have constants mix the two kinds
+    consts = [("c%d" % i, rng.choice(tnames + ["object"])) for i in range(rng.choice([0, 0, 1, 2, 3, 4]))]
+    if consts and rng.random() < 0.5:
+        consts.append(("c%d" % len(consts), "object"))
+        if tnames:
+            consts.append(("c%d" % len(consts), rng.choice(tnames)))
+        rng.shuffle(consts)
 
     def sig(maxar):
-        return [("?%s%d" % (rng.choice("xyzuvw"), j), rng.choice(tnames + (["object"] if rng.random() < 0.1 else [])))
+        return [("?%s%d" % (rng.choice("xyzuvw"), j), rng.choice(tnames + (["object"] if rng.random() < 0.1 or untyped else [])))
                 for j in range(rng.randint(0, maxar))]
     preds = [(p, sig(3)) for p in rng.sample(PRED_POOL, rng.randint(2, 6))]
-    funcs = [(f, sig(2)) for f in rng.sample(FUNC_POOL, rng.choice([0, 0, 1, 2, 3]))]
+    funcs = [(f, sig(0 if untyped else 2)) for f in rng.sample(FUNC_POOL, rng.choice([0, 0, 1, 2, 3]))]
     actions = []
     for a in rng.sample(ACT_POOL, rng.randint(1, 6)):
-        params = [("?ag", rng.choice(agent_types))] + [("?p%d" % j, rng.choice(tnames)) for j in range(rng.randint(0, 3))]
+        params = [("?ag", rng.choice(agent_types))] + [
+            ("?p%d" % j, rng.choice(tnames + (["object"] if rng.random() < 0.1 or untyped else [])))
+            for j in range(rng.randint(0, 3))]
 
         def ground(sg):
             args, used = [], set()
@@ -107,9 +118,9 @@ def gen_domain(rng):
         pre, eff = list(dict.fromkeys(pre)), list(dict.fromkeys(eff))
         actions.append({"name": a, "params": params, "pre": pre, "eff": eff,
                         "preds": sorted(used_p), "funcs": sorted(used_f), "consts": sorted(used_c)})
-    reqs = [":typing"] + rng.sample(REQ_POOL, rng.randint(0, 3))
+    reqs = ([] if untyped else [":typing"]) + rng.sample(REQ_POOL, rng.randint(0, 3))
     return {"name": "dom%d" % rng.randint(0, 99), "reqs": reqs, "types": types, "consts": consts,
-            "preds": preds, "funcs": funcs, "actions": actions}
+            "preds": preds, "funcs": funcs, "actions": actions, "untyped": untyped}
 
 
 def close_view(dom, view):
@@ -175,8 +186,19 @@ def linear_extension(rng, types, wanted):
     return out
 
 
-def render_typed_list(rng, pairs):
-    """`a b - t` groups for consecutive names of the same type (sometimes one per name)"""
+def render_typed_list(rng, pairs, untyped=False):
+    """`a b - t` groups for consecutive names of the same type (sometimes one per name).  Names of the root type:
+    written `- object` where they stand, or (a random subset, or all names of an untyped file) moved to the END of the
+    list and written bare - a bare run of names takes the type that FOLLOWS it, so only a trailing run is of type object"""
+    if untyped:
+        return " ".join(n for n, _ in pairs)
+    mode = rng.random()
+    bare = [x for x in pairs if x[1] == "object" and (mode < 0.35 or (mode < 0.55 and rng.random() < 0.5))]
+    pairs = [x for x in pairs if x not in bare]
+    return (render_typed_groups(rng, pairs) + " " + " ".join(n for n, _ in bare)).strip()
+
+
+def render_typed_groups(rng, pairs):
     out, i = [], 0
     while i < len(pairs):
         j = i + 1
